@@ -127,7 +127,7 @@ func main() {
 	r := ev.Start("C05")
 	defer r.RecoverMain()
 	defer world.Cleanup()
-	r.SetBudget(ev.Pick(r, 170*time.Second, 40*time.Minute))
+	r.SetBudget(ev.Pick(r, 240*time.Second, 60*time.Minute))
 	r.Assume("monitor: after every bucket mutation the join (per key the highest timestamp) over the newest snapshot of every instance must not lose a key or move it to an older timestamp; sweeper disabled",
 		"part (b): the search starts from a scripted non-initial state: instance c wrote its key and uploaded once, then goes silent; instances a and b have written their keys",
 		"part (b): the cleaners' hidden first-seen bookkeeping is mirrored by the harness for state deduplication only")
@@ -149,17 +149,6 @@ func main() {
 		runs = append(runs, run{"b-cleaners-native-short-prefix", fleet.Cfg{N: 3, Native: true, Keys: []string{"d/ka", "d/kb", "d/kc"}, Vals: []string{"x"}, OwnKeys: true, NoDelete: true, NewestOnly: true, Cleaner: true, Restart: true, KeepNS: keep, StaleNS: stale, Silent: 2,
 			Prefix: []string{"P2:d/kc:0+", "S2+", "P0:d/ka:0+", "P1:d/kb:0+"}}, 7})
 	}
-	for _, rn := range runs {
-		if r.Expired() {
-			r.AddPart(&ev.Part{Name: rn.name, Engine: "E2", Exhaustive: false, Bound: "not started: time budget used up"})
-			continue
-		}
-		st := statemc.Run(r, rn.name, "x", rn.cfg, rn.depth, 0)
-		cj, _ := json.Marshal(rn.cfg)
-		r.AddPart(&ev.Part{Name: rn.name, Engine: "E2", States: st.States, Transitions: st.Transitions, Executions: st.Transitions, Distinct: int64(st.Terminals), Exhaustive: st.Exhaustive,
-			Bound:   fmt.Sprintf("BFS depth %d of %d completed (frontier sizes %v) after the scripted prefix; monitor after every event; cfg %s", st.Depth, rn.depth, st.PerDepth, cj),
-			Samples: st.Samples})
-	}
 	// ---------- part (a) ----------
 	for _, native := range []bool{true, false} {
 		name := map[bool]string{true: "a-restarts-native", false: "a-restarts-shadow"}[native]
@@ -167,11 +156,12 @@ func main() {
 			r.AddPart(&ev.Part{Name: name, Engine: "E3", Exhaustive: false, Bound: "not started: time budget used up"})
 			continue
 		}
+		restore := r.SubBudget(ev.Pick(r, 25*time.Second, 8*time.Minute))
 		xrun.Explore(r, name, xrun.Opts{Kind: "restart", Bound: ev.Pick(r, 2, 3), Budget: 30, Recycle: 4, Param: restartworld.Cfg{Native: native, Faults: r.Thorough()}})
-		if r.Expired() {
-			continue
-		}
-		xrun.Explore(r, name+"-just-restarted-empty", xrun.Opts{Kind: "restart", Bound: ev.Pick(r, 2, 3), Budget: 30, Recycle: 4, Param: restartworld.Cfg{Native: native, Faults: true, StartEmpty: true, MaxLives: 2}})
+		restore()
+		restore = r.SubBudget(ev.Pick(r, 25*time.Second, 8*time.Minute))
+		xrun.Explore(r, name+"-just-restarted-empty", xrun.Opts{Kind: "restart", Bound: ev.Pick(r, 2, 3), Budget: 30, Recycle: 4, Param: restartworld.Cfg{Native: native, Faults: true, StartEmpty: true, ForceInterval: true, MaxLives: 2}})
+		restore()
 	}
 	for _, native := range []bool{true, false} {
 		name := map[bool]string{true: "a-loop-with-cleaner-native", false: "a-loop-with-cleaner-shadow"}[native]
@@ -179,8 +169,24 @@ func main() {
 			r.AddPart(&ev.Part{Name: name, Engine: "E3", Exhaustive: false, Bound: "not started: time budget used up"})
 			continue
 		}
+		restore := r.SubBudget(ev.Pick(r, 25*time.Second, 8*time.Minute))
 		xrun.Explore(r, name, xrun.Opts{Kind: "loop", Bound: ev.Pick(r, 2, 3), Budget: 30, Recycle: 4,
 			Param: loopworld.Cfg{Native: native, Cleaner: true, StoreFaults: 2, Remote2: true, AppPoints: []string{"sync.beforeInfo"}, AppOps: []string{"put-b"}, MaxVisits: 1}})
+		restore()
+	}
+	// ---------- part (b) ----------
+	for ri, rn := range runs {
+		if r.Expired() {
+			r.AddPart(&ev.Part{Name: rn.name, Engine: "E2", Exhaustive: false, Bound: "not started: time budget used up"})
+			continue
+		}
+		restore := r.SubBudget(r.Remaining() / time.Duration(len(runs)-ri))
+		st := statemc.Run(r, rn.name, "x", rn.cfg, rn.depth, 0)
+		restore()
+		cj, _ := json.Marshal(rn.cfg)
+		r.AddPart(&ev.Part{Name: rn.name, Engine: "E2", States: st.States, Transitions: st.Transitions, Executions: st.Transitions, Distinct: int64(st.Terminals), Exhaustive: st.Exhaustive,
+			Bound:   fmt.Sprintf("BFS depth %d of %d completed (frontier sizes %v) after the scripted prefix; monitor after every event; cfg %s", st.Depth, rn.depth, st.PerDepth, cj),
+			Samples: st.Samples})
 	}
 	r.Finish()
 }
